@@ -99,7 +99,7 @@ fn evs(v: &[Ev]) -> Vec<(usize, usize, Option<i64>)> {
     v.iter().map(|e| (e.t, e.pc, e.res)).collect()
 }
 
-fn outcome_key(nthreads: usize, log: &[Ev]) -> String {
+fn outcome_key(prog: &Prog, nthreads: usize, log: &[Ev]) -> String {
     let mut regs: Vec<Vec<i64>> = vec![vec![]; nthreads];
     for e in log {
         if let Some(r) = e.res {
@@ -108,7 +108,22 @@ fn outcome_key(nthreads: usize, log: &[Ev]) -> String {
     }
     let drops: Vec<usize> =
         interp::DROPS.with(|d| d.borrow().iter().map(|c| c.load(StdOrd::SeqCst)).collect());
-    serde_json::json!({"regs": regs, "drops": drops}).to_string()
+    let st: Vec<usize> = interp::STAT.with(|s| s.iter().map(|c| c.load(StdOrd::SeqCst)).collect());
+    let mut tl = vec![];
+    for k in prog.tls.iter() {
+        let i = if k == "T0" { 0 } else { 2 };
+        tl.push(vec![st[i], st[i + 1]]);
+    }
+    let mut lz = vec![];
+    for k in prog.lzs.iter() {
+        let i = if k == "Z0" { 4 } else { 6 };
+        lz.push(vec![st[i], st[i + 1]]);
+    }
+    if tl.is_empty() && lz.is_empty() {
+        serde_json::json!({"regs": regs, "drops": drops}).to_string()
+    } else {
+        serde_json::json!({"regs": regs, "drops": drops, "stat": {"tl": tl, "lz": lz}}).to_string()
+    }
 }
 
 struct Acc {
@@ -157,6 +172,7 @@ pub fn run_program(prog: &Prog, cfg: &Cfg) -> RunResult {
 
     let acc2 = acc.clone();
     let cfg2 = cfg.clone();
+    let prog2 = prog.clone();
     loom::verif::set_iteration_hook(Some(Box::new(move |phase, iter, path| {
         let mut a = acc2.borrow_mut();
         if cfg2.want_paths {
@@ -169,7 +185,7 @@ pub fn run_program(prog: &Prog, cfg: &Cfg) -> RunResult {
             "end" => {
                 let log: Vec<Ev> = interp::LOG.with(|l| std::mem::take(&mut *l.borrow_mut()));
                 a.res.iters = iter;
-                let key = outcome_key(nthreads, &log);
+                let key = outcome_key(&prog2, nthreads, &log);
                 a.pending = Some((log, key, path.to_string()));
             }
             "step" | "done" => {
